@@ -750,6 +750,10 @@ class InterpBase:
             return self.contains(b, a)
         if isinstance(op, ast.NotIn):
             return not self.contains(b, a)
+        # subset tests against the node / edge set of an abstract graph: membership of every element
+        for small, big, o in ((a, b, op), (b, a, _flip(op))):
+            if isinstance(o, (ast.LtE, ast.Lt)) and isinstance(small, (set, frozenset)) and isinstance(big, (ExtObj, ExtView)):
+                return all([self.contains(big, x) for x in sorted(small, key=show)])
         # ordering
         if is_native(a) and is_native(b):
             try:
